@@ -132,6 +132,45 @@ def _mk_rbf_log_cond_y(Rx, evaluated, kind="rbf"):
     return ob
 
 
+def _mk_feature_log_cond(kind, Rq, give_px):
+    """RBF / squared-exponential feature models: E_q[ln N(y; Mx x + Mk k(x) + b, Sigma)] for an ARBITRARY Gaussian q over (y, x)
+    (written in its conditional factorisation q(x) q(y|x), y|x ~ N(Gx+g, Sq)), from the kernel moments under q(x):
+      E[r'Lr] - 2 sum_i Mk[:,i]' L ((G-Mx) E[x k_i] + (g-b) E[k_i]) + sum_ij Mk[:,i]' L Mk[:,j] E[k_i k_j],  r = y - Mx x - b"""
+    from .C16 import gen_feature_cond, kernel_moments
+    from .wf import wf_measure
+
+    def ob(w):
+        xp = w.xp
+        obj, par, Kp = gen_feature_cond(w, kind)
+        P = SP.mods()["pdf"]
+        g = SP.gen_factored_joint(w, "j", Rq, "Dy", "Dx")
+        q = P.GaussianPDF(Sigma=g["S"], mu=g["mu"], Lambda=g["L"], ln_det_Sigma=g["ld"])
+        wf_measure(w, "generator", q, is_pdf=True)
+        px = g["px"]
+        if give_px:
+            p_x = P.GaussianPDF(Sigma=px["S"], mu=px["mu"], Lambda=px["L"], ln_det_Sigma=px["ld"])
+            val = obj.integrate_log_conditional(q, p_x=p_x)                # REAL
+        else:
+            val = obj.integrate_log_conditional(q)                         # REAL
+        Ek, Exk, Ekk = kernel_moments(w, px, Kp, "Dx")
+        Mx, Mk, b, L = par["Mx"][0], par["Mk"][0], par["b"][0], par["L"][0]
+        dy = w.size("Dy")
+        eye = xp.eye(dy)[None]
+        A = xp.concatenate([eye, -par["Mx"]], axis=2)
+        LA = xp.einsum("rij,rjk->rik", par["L"], A)
+        a = -par["b"]
+        La = xp.einsum("rij,rj->ri", par["L"], a)
+        quad = _wick_block(w, g, A, a, LA, La)
+        D = g["G"] - Mx[None]                                            # [R, Dy, Dx]
+        d0 = g["g"] - b[None]                                            # [R, Dy]
+        Er_k = xp.einsum("raj,rkj->rka", D, Exk) + xp.einsum("ra,rk->rka", d0, Ek)      # E[r k_i]  [R, Dk, Dy]
+        cross = xp.einsum("ak,ab,rkb->r", Mk, L, Er_k)
+        kk = xp.einsum("ak,ab,bl,rkl->r", Mk, L, Mk, Ekk)
+        spec = -0.5 * (quad - 2.0 * cross + kk) - 0.5 * dy * w.log2pi() - 0.5 * par["ld"]
+        w.equal("value", val, spec)
+    return ob
+
+
 def _register():
     for Rx in ("N", 1):
         for evaluated in (False, True):
@@ -144,6 +183,15 @@ def _register():
                    funcs=["approximate_conditional.LSEMGaussianConditional.integrate_log_conditional_y", "approximate_conditional.LSEMGaussianConditional.update_phi"],
                    axioms=AX, lemmas=["GtvLemmas.det_rank_one_update"],
                    tier="quick" if evaluated else "thorough")(_mk_rbf_log_cond_y(Rx, evaluated, "lsem"))
+    for kind, cls in (("rbf", "LRBFGaussianConditional"), ("lsem", "LSEMGaussianConditional")):
+        for Rq in ("R", 1):
+            for give_px in (False, True):
+                REG.ob(f"{cls}.integrate_log_conditional/Rq={Rq}/p_x={'given' if give_px else 'marginal'}",
+                       sorts=(["R"] if Rq != 1 else []) + ["Dx", "Dy", "Dk"],
+                       funcs=[f"approximate_conditional.{cls}.integrate_log_conditional", f"approximate_conditional.{cls}.update_phi",
+                              "factor.ConjugateFactor._multiply_with_measure", "pdf.GaussianPDF.get_marginal"],
+                       axioms=AX, lemmas=["GtvLemmas.inv_fromBlocks11", "GtvLemmas.det_fromBlocks11", "GtvLemmas.det_fromBlocks22"],
+                       tier="quick" if (Rq == 1) == give_px else "thorough")(_mk_feature_log_cond(kind, Rq, give_px))
     for fkind in ("general", "rank-one", "linear", "constant", "measure", "pdf"):
         for (Rphi, Rf) in (("R", "R"), ("R", 1), (1, 1), ("R", "R2")):
             for cache in (False, True):
